@@ -92,6 +92,9 @@ class CFG:
     def __init__(self, fn: ast.AST):
         self.fn = fn
         self.nodes: List[Node] = []
+        if getattr(fn, "_unmodelled", None):
+            from .model import AnalysisError
+            raise AnalysisError(f"control flow of {getattr(fn, 'name', '?')} is not modelled: {fn._unmodelled}")
         self.entry = self._new(None, "entry")
         self.exit = self._new(None, "exit")
         self.raise_exit = self._new(None, "raise")
